@@ -782,6 +782,23 @@ var _ = sort.Strings
 // regexpGroups returns the number of capture groups of the constant pattern a
 // package-level *regexp.Regexp variable is compiled from (0 if unknown).
 func regexpGroups(c *Ctx, info *types.Info, e ast.Expr) int {
+	if pat := regexpPattern(c, info, e); pat != "" {
+		if re, err := regexp.Compile(pat); err == nil {
+			return re.NumSubexp()
+		}
+	}
+	return 0
+}
+
+// regexpPattern returns the constant pattern of the package-level
+// regexp.MustCompile variable e refers to ("" if e is something else).
+func regexpPattern(c *Ctx, info *types.Info, e ast.Expr) string {
+	out := ""
+	regexpVarDo(c, info, e, func(pat string) { out = pat })
+	return out
+}
+
+func regexpVarDo(c *Ctx, info *types.Info, e ast.Expr, emit func(pat string)) int {
 	o, ok := identObj(info, e).(*types.Var)
 	if !ok {
 		if sel, ok2 := ast.Unparen(e).(*ast.SelectorExpr); ok2 {
@@ -819,9 +836,8 @@ func regexpGroups(c *Ctx, info *types.Info, e ast.Expr) int {
 						continue
 					}
 					if pat, ok := constString(pkg.TypesInfo, call.Args[0]); ok {
-						if re, err := regexp.Compile(pat); err == nil {
-							n = re.NumSubexp()
-						}
+						emit(pat)
+						n++
 					}
 				}
 			}
